@@ -30,10 +30,11 @@ echo "[$P/$L] demo with change:    $withc" | cut -c1-300
 echo "[$P/$L] demo without change: $without" | cut -c1-300
 mkdir -p /verif/seeded/$P-$TAG$L && cp $S/patch.diff $S/demo_test.go $S/meta.json /verif/seeded/$P-$TAG$L/
 # (c) run the check against it
-cd /repo && git apply --check $S/patch.diff 2>/dev/null || { echo "[$P/$L] patch does not apply to /repo HEAD"; exit 3; }
-git apply $S/patch.diff
-trap 'git -C /repo checkout -q -- .' EXIT
-cd /verif && ./bin/check $P --no-evidence "$@" > /tmp/eval-$P-$L.log 2>&1
+W=/tmp/exp/ev-$P-$L-$$; mkdir -p /tmp/exp
+git -C /repo worktree add -q --detach $W HEAD || exit 2
+trap 'git -C /repo worktree remove --force '$W' 2>/dev/null' EXIT
+(cd $W && git apply $S/patch.diff 2>/dev/null) || { echo "[$P/$L] patch does not apply to /repo HEAD"; exit 3; }
+cd /verif && VERIF_REPO=$W ./bin/check $P --no-evidence "$@" > /tmp/eval-$P-$L.log 2>&1
 rc=$?
 grep "^violation:\|^KNOWN\|^check: property" /tmp/eval-$P-$L.log | cut -c1-220 | head -8
 echo "[$P/$L] check exit code: $rc"
